@@ -41,6 +41,44 @@ pub fn expectation(m: &Model) -> Expect {
             MergeErr::AtNormalKey(p) => Expect::Reject(format!("PluralsAtNormalKey at {}", p.join("."))),
         };
     }
+    // C07: `null` in the default locale, and a subkey group in one locale vs a value in another
+    fn has_null(t: &BTreeMap<String, MV>) -> bool {
+        t.values().any(|v| match v {
+            MV::Null => true,
+            MV::Sub(s) => has_null(s),
+            _ => false,
+        })
+    }
+    fn mismatch(def: &BTreeMap<String, MV>, loc: &BTreeMap<String, MV>, pre: &mut Vec<String>) -> Option<String> {
+        for (k, dv) in def {
+            pre.push(k.clone());
+            let r = match (dv, loc.get(k)) {
+                (_, None) | (_, Some(MV::Null)) => None,
+                (MV::Sub(ds), Some(MV::Sub(ls))) => mismatch(ds, ls, pre),
+                (MV::Sub(_), Some(_)) | (_, Some(MV::Sub(_))) => Some(pre.join(".")),
+                _ => None,
+            };
+            pre.pop();
+            if r.is_some() {
+                return r;
+            }
+        }
+        None
+    }
+    for ns in m.namespaces() {
+        if let Some(def) = m.tree(&ns, &m.default) {
+            if has_null(def) {
+                return Expect::Reject("ExplicitDefaultInDefault".into());
+            }
+            for loc in m.locales.iter().skip(1) {
+                if let Some(t) = m.tree(&ns, loc) {
+                    if let Some(at) = mismatch(def, t, &mut vec![]) {
+                        return Expect::Reject(format!("SubKeyMissmatch at {at} in {loc}"));
+                    }
+                }
+            }
+        }
+    }
     let mut open = None;
     for entries in m.project.files.values() {
         match ranges_status(entries) {
@@ -344,6 +382,9 @@ pub fn compare_accepted(m: &Model, parsed: &Parsed, stats: &mut CmpStats, counts
         }
         for path in expected_keys.intersection(&observed_keys) {
             let ko = &nso.keys[path];
+            if let Some(d) = compare_signature(m, &ns, path, &ko.sig) {
+                out.push(Disc::new(&ns, path, "", d));
+            }
             for loc in &m.locales {
                 stats.keys_compared += 1;
                 let eff = m.effective_locale(&ns, loc, path);
@@ -411,6 +452,89 @@ pub fn compare_accepted(m: &Model, parsed: &Parsed, stats: &mut CmpStats, counts
     out
 }
 
+fn lit_type(rs: &[R]) -> Option<&'static str> {
+    match rs {
+        [] => Some("string"),
+        [R::Lit(l)] => Some(if l == "true" || l == "false" {
+            "bool"
+        } else if l.contains('.') || l.contains('e') || l.contains("inf") || l.contains("NaN") {
+            "float"
+        } else if l.starts_with('-') {
+            "signed"
+        } else {
+            "unsigned"
+        }),
+        rs if rs.iter().all(|r| matches!(r, R::Text(_) | R::Lit(_))) => Some("string"),
+        _ => None,
+    }
+}
+
+pub fn fmt_class(text: &str) -> String {
+    let name = text.trim().split('(').next().unwrap_or("").trim();
+    match name {
+        "" => "None".into(),
+        "number" => "Number".into(),
+        "currency" => "Currency".into(),
+        "date" => "Date".into(),
+        "time" => "Time".into(),
+        "datetime" => "DateTime".into(),
+        "list" => "List".into(),
+        other => format!("?{other}"),
+    }
+}
+
+/// C08: the key's required arguments are the union over all locales (after substitution).
+pub fn compare_signature(m: &Model, ns: &Option<String>, path: &[String], obs: &SigObs) -> Option<String> {
+    let mut sig = Sig::default();
+    let mut lit_types = BTreeSet::new();
+    let mut all_lit = true;
+    for loc in &m.locales {
+        if !m.defines(ns, loc, path) {
+            continue;
+        }
+        let r = m.resolve(ns, loc, path).ok()?;
+        let s = signature(&r);
+        match lit_type(&r) {
+            Some(t) if s.is_empty() => {
+                lit_types.insert(t);
+            }
+            _ => all_lit = false,
+        }
+        sig.merge(&s);
+    }
+    match obs {
+        SigObs::Lit(t) => {
+            if all_lit && lit_types.len() == 1 && lit_types.contains(t.as_str()) {
+                None
+            } else {
+                Some(format!("signature: observed literal {t}, expected {}", if all_lit { format!("literal types {lit_types:?}") } else { format!("arguments {:?}", sig.names()) }))
+            }
+        }
+        SigObs::Interpol { vars, comps } => {
+            if all_lit && lit_types.len() == 1 {
+                return Some(format!("signature: observed an argument builder {:?}/{:?}, expected a plain literal {lit_types:?}", vars.keys().collect::<Vec<_>>(), comps));
+            }
+            let mut names: BTreeSet<String> = vars.keys().map(|k| format!("var_{k}")).collect();
+            names.extend(comps.iter().map(|k| format!("comp_{k}")));
+            if names != sig.names() {
+                return Some(format!("signature: required arguments {:?}, expected the union over locales {:?}", names, sig.names()));
+            }
+            for (v, (fmts, ck)) in vars {
+                let exp_kind = sig.counts.get(v).and_then(|s| s.iter().next().cloned());
+                if *ck != exp_kind {
+                    return Some(format!("signature: variable {v} typed {ck:?}, expected {exp_kind:?}"));
+                }
+                let exp_f: BTreeSet<String> = sig.vars.get(v).map(|s| s.iter().map(|f| fmt_class(f)).collect()).unwrap_or_default();
+                let obs_f: BTreeSet<String> = fmts.iter().map(|f| f.split('(').next().unwrap_or("").to_string()).collect();
+                if exp_f != obs_f {
+                    return Some(format!("signature: variable {v} formatters {obs_f:?}, expected {exp_f:?}"));
+                }
+            }
+            None
+        }
+    }
+}
+
 /// Source text of the value at (ns, loc, path) for violation keys.
 pub fn source_of(p: &Project, ns: &Option<String>, loc: &str, path: &[String]) -> String {
     fn find<'a>(entries: &'a [(String, Val)], path: &[String]) -> Option<&'a Val> {
@@ -452,6 +576,67 @@ pub fn source_of(p: &Project, ns: &Option<String>, loc: &str, path: &[String]) -
             }
         },
     }
+}
+
+/// Known finding "fk-inside-component": `$t(..)` is split out of the string before tags are
+/// looked for, so a component that contains a foreign key is read as literal `<b>` / `</b>` text.
+/// This returns the project as the loader *currently* understands it (None if nothing changes);
+/// it is used only to tell this recorded finding apart from any other violation.
+pub fn fk_in_comp_view(p: &Project) -> Option<Project> {
+    fn has_fk(segs: &[Seg]) -> bool {
+        segs.iter().any(|s| match s {
+            Seg::Fk { .. } => true,
+            Seg::Comp { children, .. } => has_fk(children),
+            _ => false,
+        })
+    }
+    fn tr_segs(segs: &[Seg], changed: &mut bool) -> Vec<Seg> {
+        let mut out = vec![];
+        for s in segs {
+            match s {
+                Seg::Comp { name, ws, children } if has_fk(children) => {
+                    *changed = true;
+                    let sp = |n: u8| " ".repeat(n as usize);
+                    out.push(Seg::Text(format!("<{}{}{}>", sp(ws[0]), name, sp(ws[1]))));
+                    out.extend(tr_segs(children, changed));
+                    out.push(Seg::Text(format!("<{}/{}{}{}>", sp(ws[2]), sp(ws[3]), name, sp(ws[4]))));
+                }
+                Seg::Comp { name, ws, children } => out.push(Seg::Comp { name: name.clone(), ws: *ws, children: tr_segs(children, changed) }),
+                Seg::Fk { path, args, ws } => out.push(Seg::Fk {
+                    path: path.clone(),
+                    ws: *ws,
+                    args: args
+                        .iter()
+                        .map(|(k, a)| (k.clone(), match a {
+                            FkArg::Str(s) => FkArg::Str(tr_segs(s, changed)),
+                            o => o.clone(),
+                        }))
+                        .collect(),
+                }),
+                o => out.push(o.clone()),
+            }
+        }
+        out
+    }
+    fn tr_val(v: &Val, changed: &mut bool) -> Val {
+        match v {
+            Val::Str(s) => Val::Str(tr_segs(s, changed)),
+            Val::Sub(e) => Val::Sub(e.iter().map(|(k, v)| (k.clone(), tr_val(v, changed))).collect()),
+            Val::Range(r) => Val::Range(RangeDecl {
+                ty: r.ty.clone(),
+                branches: r.branches.iter().map(|b| Branch { value: Box::new(tr_val(&b.value, changed)), ..b.clone() }).collect(),
+            }),
+            o => o.clone(),
+        }
+    }
+    let mut changed = false;
+    let mut q = p.clone();
+    for entries in q.files.values_mut() {
+        for (_, v) in entries.iter_mut() {
+            *v = tr_val(v, &mut changed);
+        }
+    }
+    changed.then_some(q)
 }
 
 #[derive(Clone, Copy)]
@@ -496,6 +681,37 @@ pub fn check_project_opts(
     let m = Model::new(p);
     let out = run_project(p, dir, co.write);
     let expect = expectation(&m);
+    // recorded finding "fk-inside-component": if the observation is exactly what the loader's
+    // current reading of the project implies, report it under that finding's key and nothing else
+    if let Some(view) = fk_in_comp_view(p) {
+        let vm = Model::new(&view);
+        let vexpect = expectation(&vm);
+        let matches_view = match (&vexpect, &out) {
+            (Expect::Accept, Outcome::Ok(parsed)) => {
+                let mut stats = CmpStats { keys_compared: 0, renders: 0, defaulted: 0 };
+                compare_accepted(&vm, parsed, &mut stats, co.counts).is_empty()
+            }
+            (Expect::Reject(_), Outcome::Err { .. }) => true,
+            (Expect::Open(_), Outcome::Ok(_)) | (Expect::Open(_), Outcome::Err { .. }) => true,
+            _ => false,
+        };
+        let differs_from_statement = match (&expect, &out) {
+            (Expect::Accept, Outcome::Ok(parsed)) => {
+                let mut stats = CmpStats { keys_compared: 0, renders: 0, defaulted: 0 };
+                !compare_accepted(&m, parsed, &mut stats, co.counts).is_empty()
+            }
+            (Expect::Accept, _) => true,
+            (Expect::Reject(_), Outcome::Ok(_)) => true,
+            _ => false,
+        };
+        if matches_view && differs_from_statement {
+            rep.violation(
+                format!("KF[fk-inside-component] {pid}/{part}: component containing $t(..) read as literal tag text :: {}", vmodel::report::truncate(&p.describe(), 500)),
+                json!({"project": p.describe()}),
+            );
+            return (expect, out);
+        }
+    }
     match (&expect, &out) {
         (_, Outcome::Panic(msg)) => {
             rep.violation(
